@@ -31,12 +31,12 @@ def main():
     if args.pid not in SCENARIOS:
         print('unknown property ' + args.pid)
         sys.exit(core.EXIT_HARNESS)
+    mod = importlib.import_module(SCENARIOS[args.pid])   # may set runner.LEAN
     try:
         runner.preload()
     except Exception as e:
         print('HARNESS-ERROR: cannot import yalafi from %s: %r' % (runner.REPO, e))
         sys.exit(core.EXIT_HARNESS)
-    mod = importlib.import_module(SCENARIOS[args.pid])
     if args.replay:
         sys.exit(core.do_replay(mod, args.pid, args.replay))
     seed = int(os.environ.get('VERIF_SEED') or 1)
